@@ -233,8 +233,17 @@ def build_umat(u):
         if bulk is not None:
             um = um & fem.Volumetric(bulk=bulk)
         if u.get("third"):
-            # a chain of three: (a & b) & c
-            um = um & fem.NeoHookeCompressible(mu=u["third"]["mu"], lmbda=u["third"]["lmbda"])
+            # a chain of three: (a & b) & c - the two-material composite it is built from stays an
+            # object of its own (a caller may go on using it): what it returns does not change
+            from .kernel import Misbehaviour
+
+            base = um
+            Ft = (np.eye(3) + 0.1 * np.array([[0.3, 0.2, -0.1], [0.05, -0.2, 0.15], [-0.1, 0.1, 0.25]])).reshape(3, 3, 1, 1)
+            before = [np.array(a, copy=True) for a in base.gradient([Ft.copy(), None])[:1]] + [np.array(a, copy=True) for a in base.hessian([Ft.copy(), None])[:1]]
+            um = base & fem.NeoHookeCompressible(mu=u["third"]["mu"], lmbda=u["third"]["lmbda"])
+            after = [np.asarray(a) for a in base.gradient([Ft.copy(), None])[:1]] + [np.asarray(a) for a in base.hessian([Ft.copy(), None])[:1]]
+            if not all(np.array_equal(a, b) for a, b in zip(before, after)):
+                raise Misbehaviour("caller-data", "a composite material returns another stress / elasticity after a second composite was built from it (`ext = base & other` changed `base`)", site="CompositeMaterial.__and__")
         return um
     if name == "Plastic":
         return fem.MaterialStrain(
